@@ -49,12 +49,13 @@ def gen_survivor(rng):
     survivors = [["org", rng.choice(["Org", "Dept"]), f"s{i}"] for i in range(rng.randint(1, 2))]
     if rng.random() < 0.6:
         survivors.append(["person", rng.choice(["Person", "Employee"]), "sp0"])
-    gk = ["sub_org_of", "part_of", "works_for", "member_of", "head_of", "head_of", "person_works_for", "members_add"]
+    gk = ["sub_org_of", "part_of", "works_for", "member_of", "head_of", "head_of", "person_works_for", "members_add",
+          "dead_sub_org_source", "dead_sub_org_source"]
     rounds = [[rng.choice(gk) for _ in range(rng.randint(1, 4))] for _ in range(rng.randint(1, 3))]
     fk = ["sub_org_of", "part_of", "works_for", "member_of", "new_works_for", "new_head_of", "new_members_add", "new_member_of"]
     final = [[rng.choice(fk), rng.randrange(10), rng.randrange(10)] for _ in range(rng.randint(1, 5))]
     return {"mode": "survivor", "survivors": survivors, "rounds": rounds, "final": final, "new_orgs": rng.randint(1, 3),
-            "sweep": "sweep"}
+            "sweep": rng.choice(["sweep", "sweep", "nosweep", "nogc"])}
 
 
 def gen(rng, tier, ctx):
@@ -318,6 +319,12 @@ def _garbage_round(om, named, kinds, C):
             persons[0].member_of.append(g)
             persons[0].member_of = []
             C["survivor_relations_to_garbage"] += 1
+        elif kind == "dead_sub_org_source" and orgs:
+            # the garbage is the SOURCE of a transitive relation to a survivor (nothing refers back to it: it dies when
+            # this function returns, its node and edge stay until the next sweep)
+            g.sub_org_of.append(orgs[i % len(orgs)])
+            C["survivor_relations_to_garbage"] += 1
+            C["dead_sources_of_transitive_edges"] += 1
         elif kind in ("head_of", "person_works_for", "members_add") and orgs:
             # the garbage is the SOURCE (a role / a person) related to a surviving organisation; the inverse relation
             # holds it strongly in org.members until it is taken out again
@@ -340,20 +347,28 @@ def run_survivor(spec, om, with_history, C, problems):
     SymbolGraph().clear()
     SymbolGraph()
     named = {}
+    history_errors = []
     for kind, cls, name in spec["survivors"]:
         named[name] = om.ALL_CLASSES[cls](name)
     if with_history:
         for kinds in spec["rounds"]:
-            _garbage_round(om, named, kinds, C)
-            gc.collect()
-            SymbolGraph().remove_dead_instances()
-            audit_index(SymbolGraph(), C, problems, "after sweeping dead targets")
+            try:
+                _garbage_round(om, named, kinds, C)
+            except Exception as e:          # a legal assertion on live instances raised because of what died before
+                history_errors.append(f"assertion during the history: {type(e).__name__}: {e}"[:160])
+            if spec.get("sweep", "sweep") != "nogc":
+                gc.collect()
+            if spec.get("sweep", "sweep") == "sweep":
+                SymbolGraph().remove_dead_instances()
+                audit_index(SymbolGraph(), C, problems, "after sweeping dead targets")
+            else:
+                C["survivor_rounds_without_sweep"] += 1
     for i in range(spec["new_orgs"]):
         named[f"n{i}"] = om.Org(f"n{i}")
     orgs = [o for n, o in sorted(named.items()) if isinstance(o, om.Org) and n.startswith("s")]
     news = [o for n, o in sorted(named.items()) if n.startswith("n")]
     persons = [o for n, o in sorted(named.items()) if isinstance(o, om.Person)]
-    errors, n_assert = [], 0
+    errors, n_assert = list(history_errors), 0
     for kind, i, j in spec["final"]:
         try:
             if kind in ("sub_org_of", "part_of") and orgs:
